@@ -7,6 +7,9 @@
 using namespace nifly;
 using namespace vh;
 
+namespace vh {
+void skinMesh(NifFile& nif, NiShape* shape, int nbones, uint64_t seed, int maxInfl);
+}
 namespace {
 std::string v2s(const std::vector<Vector2>& v) {
 	std::string o;
@@ -47,6 +50,11 @@ std::string run(const Args& a) {
 		NiShape* s = nif.CreateShapeFromData("M", &v, &t, &uv, withNormals ? &n : nullptr);
 		if (!s)
 			return std::string("no-shape");
+		if (a[5].find('k') != std::string::npos) {
+			// skinned: in SSE the vertex data also lives in the skin partition, which a save must refresh
+			skinMesh(nif, s, 3, std::stoull(a[4]) + 5, 4);
+			nif.UpdateSkinPartitions(s);
+		}
 		auto bstri = dynamic_cast<BSTriShape*>(s);
 		std::string out = std::string("INPUT V=") + v3s(v) + " UV=" + v2s(uv) + " N=" + (withNormals ? v3s(n) : "none") + " T=" + triS(t)
 						  + " fullprec=" + (bstri ? (bstri->IsFullPrecision() ? "1" : "0") : "1") + " trilimit=" + std::to_string(nif.GetTriangleLimit())
@@ -126,6 +134,24 @@ std::string run(const Args& a) {
 			if (!rs)
 				return out + " | reload2-no-shape";
 			out += " | RELOAD2 " + observeShape(re, rs, false);
+		}
+		// a further edit that keeps vertex count and layout (nothing forces the writer to rebuild derived buffers), third save
+		{
+			for (auto& p : nv3)
+				p.x += 3.0f;
+			nif.SetVertsForShape(s, nv3);
+			std::stringstream ss(std::ios::in | std::ios::out | std::ios::binary);
+			if (nif.Save(ss) != 0)
+				return out + " | save3-failed";
+			out += " | SAVED3 " + observeShape(nif, s, false);
+			NifFile re;
+			ss.seekg(0);
+			if (re.Load(ss) != 0)
+				return out + " | reload3-failed";
+			auto rs = re.FindBlockByName<NiShape>("M");
+			if (!rs)
+				return out + " | reload3-no-shape";
+			out += " | RELOAD3 " + observeShape(re, rs, false);
 		}
 		return out;
 	}, 120);
